@@ -254,6 +254,35 @@ impl BeltPreset {
     }
 }
 
+/// NoPadding: whole-block messages (including the EMPTY message) round-trip through the padded API.
+macro_rules! rt_nopad {
+    ($name:ident, $unw:expr, $krate:ident, $bs:ty, $b:expr, $ivbs:ty, $ivlen:expr, $par:ty, $l:expr) => {
+        #[kani::proof]
+        #[kani::unwind($unw)]
+        pub fn $name() {
+            use cipher::block_padding::NoPadding;
+            const L: usize = $l;
+            let key: [u8; 2] = kani::any();
+            let iv: [u8; $ivlen] = kani::any();
+            let msg: [u8; L] = kani::any();
+            let c = Uf::<$bs, $par>::with_key(key);
+            let mut ct: [u8; L + 1] = kani::any();
+            let n = $krate::Encryptor::inner_iv_init(c.clone(), blk::<$ivbs>(&iv)).encrypt_padded_b2b::<NoPadding>(&msg, &mut ct[..L]).unwrap().len();
+            assert!(n == L, "NoPadding ciphertext length");
+            let r = $krate::Decryptor::inner_iv_init(c.clone(), blk::<$ivbs>(&iv)).decrypt_padded::<NoPadding>(&mut ct[..L]);
+            assert!(r.is_ok(), "whole-block ciphertext (possibly empty) rejected by decrypt_padded::<NoPadding>");
+            let pt = r.unwrap();
+            assert!(pt.len() == L);
+            let mut i = 0;
+            while i < L {
+                assert!(pt[i] == msg[i], "NoPadding round trip");
+                i += 1;
+            }
+            kani::cover!(true);
+        }
+    };
+}
+
 // ---- quick -----------------------------------------------------------------------------------
 rt_blocks!(rt_cbc_b2_w2_n3, 48, cbc, U2, 2, U2, 2, U2, 3, U2, 2);
 rt_blocks!(rt_pcbc_b2_w2_n3, 48, pcbc, U2, 2, U2, 2, U2, 3, U2, 2);
@@ -269,6 +298,11 @@ rt_padded!(rt_pad_cbc_b4_w2_l9, 64, cbc, Uf, U4, 4, U4, 4, U2, 9, U4, 4);
 rt_padded!(rt_pad_pcbc_b2_w2_l3, 64, pcbc, Uf, U2, 2, U2, 2, U2, 3, U2, 2);
 rt_padded!(rt_pad_ige_b2_w2_l5, 64, ige, Uf, U2, 2, U4, 4, U2, 5, U2, 2);
 rt_padded!(rt_pad_cfb_b2_w2_l3, 64, cfb_mode, UfE, U2, 2, U2, 2, U2, 3, U2, 2);
+rt_nopad!(rt_nopad_cbc_b2_w2_l0, 48, cbc, U2, 2, U2, 2, U2, 0);
+rt_nopad!(rt_nopad_cbc_b2_w2_l4, 48, cbc, U2, 2, U2, 2, U2, 4);
+rt_nopad!(rt_nopad_pcbc_b2_w2_l0, 48, pcbc, U2, 2, U2, 2, U2, 0);
+rt_nopad!(rt_nopad_ige_b2_w2_l0, 48, ige, U2, 2, U4, 4, U2, 0);
+rt_nopad!(rt_nopad_ige_b2_w2_l6, 48, ige, U2, 2, U4, 4, U2, 6);
 rt_oneshot!(rt_cfb_oneshot_b2_w2_l7, 48, cfb_mode, U2, 2, U2, 7);
 rt_oneshot!(rt_cfb8_oneshot_b2_l5, 48, cfb8, U2, 2, U1, 5);
 rt_buf!(rt_buf_b2_l7_a3_c4, 48, U2, 2, 7, 3, 4);
